@@ -435,7 +435,9 @@ def effect_tokens(F, E, f, depth=0, seen=None):
     toks = set()
     qn = {}
     for i, q, op in queue_ops(f): qn[i] = (q, op)
-    for i in f.linear_nodes():
+    # all blocks, also those the constant folder prunes: whether a branch on the result of a tag-dispatched helper is folded depends
+    # on how the test is written (`if (helper())` folds, `bool b = helper(); if (b)` does not), which must not make siblings differ
+    for i in f.linear_nodes(reachable_only=False):
         n = f.nodes[i]
         if not n: continue
         k = n['k']
@@ -667,6 +669,58 @@ def plans_fct(F, R):
                 R.find('C01.plan', ('boost/msm/back/favor_compile_time.hpp', 'boost::msm::back::dispatch_table<favor_compile_time>'), 'plan', 'favor_compile_time chain for state %s on event %s holds %s, the declarations give %s' % (Facts.short(st, 50), Facts.short(ev, 40), [(k, Facts.short(v, 60)) for k, v in g], [(k, Facts.short(v, 60)) for k, v in exp]), where=f.loc, instance='%s / %s / %s' % (Facts.short(m.fe, 80), Facts.short(st, 60), Facts.short(ev, 40)))
             if not okd:
                 R.find('C01.plan', ('boost/msm/back/favor_compile_time.hpp', 'boost::msm::back::dispatch_table<favor_compile_time>'), 'default-cell', 'default cell of state %s on event %s selected as (deferred, composite)=%s, the declarations give %s' % (Facts.short(st, 50), Facts.short(ev, 40), dflt.get(st), exp_d), where=f.loc, instance='%s / %s / %s' % (Facts.short(m.fe, 80), Facts.short(st, 60), Facts.short(ev, 40)))
+
+@rule('fctshape')
+def fctshape(F, R):
+    """C01.plan (back + favor_compile_time, how the run-time chains are filled): the constructor fills the matching rows first and the
+    default cells afterwards; rows are pushed to the front (last declared = first tried); a composite state's submachine call is pushed
+    to the FRONT of what is already there (inner level first), no_transition / defer_transition to the BACK (tried only when no row
+    consumed the event); the machine's own cell 0 gets call_no_transition in front."""
+    from rules_core import backend_of
+    from rules_order import dependency_closure
+    for f in F.funcs:
+        if not f.file.endswith('back/favor_compile_time.hpp') or not f.blocks: continue
+        if f.cls == 'dispatch_table' and 'ctor' in (f.d.get('sp') or ''):
+            order = f.linear_nodes()
+            seq = []
+            for i in order:
+                n = f.nodes[i]
+                if n and n['k'] == 'call' and n.get('n') == 'for_each':
+                    kinds = set()
+                    for a in n.get('args', []):
+                        for d in dependency_closure(f, a):
+                            x = f.nodes[d]
+                            if x and x['k'] == 'ctor' and x.get('pc') in ('init_cell', 'default_init_cell'): kinds.add(x['pc'])
+                    seq.append('+'.join(sorted(kinds)))
+            if not seq: continue
+            R.seen(f); R.anchor('fct-ctor')
+            ok = seq == ['init_cell', 'default_init_cell']
+            R.ob('C01.plan', ok, {'func': f.q, 'passes': seq})
+            if not ok: R.find('C01.plan', f, 'fill-order', 'the favor_compile_time table must be filled with the matching rows first and the default cells afterwards (found passes %s): otherwise a submachine\'s own dispatch ends up behind the enclosing machine\'s rows and no_transition in front of them' % seq)
+        ops = []
+        for i, n in f.calls():
+            if n.get('n') in ('push_front', 'push_back') and n.get('obj') and f.base_member(n['obj']) == 'one_state':
+                what = None
+                for d in dependency_closure(f, n['args'][0]) if n.get('args') else []:
+                    x = f.nodes[d]
+                    if x and x['k'] == 'ref' and x.get('dk') in ('method', 'func') and x['n'] in ('defer_transition', 'call_no_transition', 'call_submachine', 'default_eventless_transition', 'execute'): what = x['n']
+                    if x and x['k'] == 'call' and x.get('n') == 'make_cell': what = 'row'
+                ops.append((n['n'], what))
+        if not ops: continue
+        exp = None
+        if f.cls == 'helper' and f.n == 'execute':
+            ha = f.cls_args('helper') or []
+            d_, c_ = (str(ha[0]).strip() in ('true', '1'), str(ha[1]).strip() in ('true', '1')) if len(ha) >= 2 else (None, None)
+            if d_ is True: exp = [('push_back', 'defer_transition')]
+            elif d_ is False and c_ is True: exp = [('push_front', 'call_submachine')] if any(o[1] == 'call_submachine' for o in ops) else [('push_front', 'call_no_transition')]
+            elif d_ is False and c_ is False: exp = [('push_back', 'call_no_transition')]
+        elif f.cls == 'default_init_cell' and f.n == 'operator()': exp = [('push_back', 'default_eventless_transition')]
+        elif f.cls == 'init_cell' and f.n in ('init_event_base_case', 'init'): exp = [('push_front', ops[0][1])] if ops[0][1] in ('row', 'execute') else None
+        if exp is None: continue
+        R.seen(f); R.anchor('fct-fill:' + (f.cls if f.cls != 'helper' else 'helper'))
+        ok = ops == exp
+        R.ob('C01.plan', ok, {'func': f.q, 'operations': ops})
+        if not ok: R.find('C01.plan', f, 'fill-op', '%s::%s fills the chain with %s, required %s' % (f.cls, f.n, ops, exp))
 
 @rule('plans_mp11_table')
 def plans_mp11_table(F, R):
